@@ -324,7 +324,7 @@ func H_envmono() {
 	for _, t := range argv {
 		vAssume(!vFoldEq(t))
 	}
-	cfg := vAppCfg{spec: spec, envAll: true, policy: flag.ContinueOnError}
+	cfg := vAppCfg{spec: spec, envAll: true, policy: flag.ContinueOnError, defEqEnv: vParamInt("defEqEnv") == 1}
 	// run 1: no variable set
 	off := vRunTable(cfg, argv)
 	// run 2: a symbolic subset set to valid values
@@ -342,6 +342,11 @@ func H_envmono() {
 				return
 			}
 			vAssert(false, "C12: a command line accepted without the environment is rejected with it")
+		}
+		// C15 seen from here: which parameters were set by the user depends on the command
+		// line only, not on the environment
+		if !rHasEnd(root) && on.ran == 1 {
+			vAssert(on.user == off.user && on.userArg == off.userArg, "C15/C12: SetByUser changed although the command line is the same")
 		}
 		if !rHasEnd(root) {
 			// identical values for every option written on the command line
